@@ -254,6 +254,12 @@ class TorchOps(Ops):
             i = self.const_int(idx[1])
             if base.items is not None and i is not None and -len(base.items) <= i < len(base.items):
                 return base.items[i]
+            if base.items is not None and i is not None and base.over == "shape":
+                # t.shape[i] with i beyond the number of dimensions (a 0-d tensor's shape[0]): IndexError
+                from .interp import AbsRaise
+
+                self.ev("raise_site", node, exc="IndexError", what=f"shape of a {len(base.items)}-d tensor indexed at {i}")
+                raise AbsRaise("IndexError", node, self.interp.where(node)[1])
             if base.items is not None:
                 e = None
                 for x in base.items:
@@ -306,6 +312,9 @@ class TorchOps(Ops):
             return tvv.but(kind=tv.kind, note="")  # buf[()] = v: the whole (uninitialised) buffer receives v
         p, q, s, z = tv.p and tvv.p, tv.q and tvv.q, tv.s and tvv.s, tv.z and tvv.z
         gen = tv.gen | tvv.gen
+        if tv.dtype != tvv.dtype and not tvv.is_py and tv.dtype not in ("Mixed",) and tvv.dtype not in ("Mixed",):
+            # a store converts the value to the dtype of the buffer it lands in
+            self.ev("store_cast", st, buffer_dtype=tv.dtype, value_dtype=tvv.dtype, buffer_origin=sorted(tv.origin), buffer_note=tv.note)
         for pos, part in enumerate(parts):
             if pos >= len(tv.axes):
                 break
@@ -376,7 +385,7 @@ class TorchOps(Ops):
             if attr in ("T", "mT", "H"):
                 return tv.but(axes=tuple(reversed(tv.axes)))
             if attr == "shape":
-                return ListV(items=tuple(self.size_tv(tv, i) for i in range(len(tv.axes))), kind="tuple")
+                return ListV(items=tuple(self.size_tv(tv, i) for i in range(len(tv.axes))), kind="tuple", over="shape")
             if attr == "dtype":
                 return MetaV("dtype", tv.dtype, origin=frozenset(o + "#meta" if not o.endswith("#meta") else o for o in tv.origin))
             if attr == "device":
